@@ -879,8 +879,12 @@ pub fn run_det(cfg: &Cfg) -> Report {
         let fl = floats();
         // plain names, and names that differ only in letter case / by a prefix (a lookup that normalises or
         // prefix-matches names would confuse them)
-        let names = *g.pick(&[["a", "b", "c", "d"], ["x", "X", "xx", "Xx"], ["in1", "IN1", "in10", "In1"], ["é", "É", "e", "E"], ["a", "b", "c", "d"]]);
-        let k = 1 + g.below(4) as usize;
+        let names = *g.pick(&[["a", "b", "c", "d"], ["x", "X", "xx", "Xx"], ["in1", "IN1", "in10", "In1"], ["é", "É", "e", "E"], ["a", "b", "c", "d"], ["p", "q", "in1", "in2"]]);
+        let mut k = 1 + g.below(4) as usize;
+        // one case in eight mentions a name that is NOT declared (e.g. `in2` next to two declared inputs): whatever the
+        // machine does with it - it panics -, it does the same in every run and for every declaration order
+        let undeclared = g.chance(1, 8);
+        if undeclared { k = k.min(3).max(2).min(2 + g.below(2) as usize); }
         let inputs: Vec<(String, LitV)> = (0..k).map(|j| (names[j].to_string(), match g.below(3) {
             0 => LitV::I(*g.pick(&INTS)), 1 => LitV::F(*g.pick(&fl)), _ => LitV::B(g.chance(1, 2)) })).collect();
         let plain = inv.plain();
@@ -891,6 +895,7 @@ pub fn run_det(cfg: &Cfg) -> Report {
             else if g.chance(1, 6) { PushProgram::Block(vec![PushProgram::Instruction(VariableName::from(names[g.below(k as u64) as usize]).into()), PushProgram::Instruction(g.pick(&plain).clone())]) }
             else { PushProgram::Instruction(g.pick(&plain).clone()) }
         }).collect();
+        if undeclared { let at = g.below(program.len() as u64 + 1) as usize; program.insert(at, PushProgram::Instruction(VariableName::from(names[k.min(3)]).into())); }
         program.reverse();
         let spec0 = StateSpec { max_steps: 40 + g.below(40) as usize, exec_max: 64, int_max: 1 + g.below(8) as usize, float_max: 1 + g.below(8) as usize, bool_max: 1 + g.below(8) as usize,
             exec: program, ints: vec![], floats: vec![], bools: vec![], inputs: inputs.clone() };
@@ -920,9 +925,10 @@ pub fn run_det(cfg: &Cfg) -> Report {
         r.case(&req, used >= 2);
         r.hit(&format!("inputs {k} permutations {}", perms.len()));
         if idx % 199 == 0 { r.sample(json!({"request": req, "real": real})); }
-        if real != model { r.disagree(json!({"case": req, "real": real, "impl": model})); }
+        // (the model has no panic outcome: programs that mention an undeclared name are compared among themselves only)
+        if real != model && !undeclared { r.disagree(json!({"case": req, "real": real, "impl": model})); }
     });
-    name_history(&mut rep);
+    crate::watch::guarded("push-det: name history (6000 names, threads)", || name_history(&mut rep));
     rep
 }
 
